@@ -105,6 +105,23 @@ pub fn encode_ext<W: Write + Seek>(
     extra: &[i32],
     partial_bytes: usize,
 ) -> Result<(), EncErr> {
+    encode_full(w, pcm, opts, front, chunks, total, extra, partial_bytes, true)
+}
+
+/// `finalize == false` models a crash before finalize: all data is written, then the writer is
+/// leaked (neither finalized nor dropped).
+#[allow(clippy::too_many_arguments)]
+pub fn encode_full<W: Write + Seek>(
+    w: W,
+    pcm: &Pcm,
+    opts: &EncOpts,
+    front: Front,
+    chunks: &[usize],
+    total: Option<u64>,
+    extra: &[i32],
+    partial_bytes: usize,
+    finalize: bool,
+) -> Result<(), EncErr> {
     let o = opts.to_options().map_err(EncErr::Options)?;
     let bps = pcm.bps as u32;
     let mut ci = 0usize;
@@ -150,6 +167,9 @@ pub fn encode_ext<W: Write + Seek>(
                         wr.write_all(&data[off..off + n]).map_err(|e| EncErr::Write(e.to_string()))?;
                         off += n;
                     }
+                    if !finalize {
+                        return Ok(());
+                    }
                     wr.into_inner().finalize().map_err(|e| EncErr::Finalize(e.to_string()))
                 }};
             }
@@ -171,6 +191,9 @@ pub fn encode_ext<W: Write + Seek>(
                 wr.write(&data[off..off + n]).map_err(|e| EncErr::Write(e.to_string()))?;
                 off += n;
             }
+            if !finalize {
+                return Ok(());
+            }
             wr.into_inner().finalize().map_err(|e| EncErr::Finalize(e.to_string()))
         }
         Front::Channels => {
@@ -184,6 +207,9 @@ pub fn encode_ext<W: Write + Seek>(
                 let sl: Vec<&[i32]> = pcm.data.iter().map(|c| &c[off..off + n]).collect();
                 wr.write(&sl).map_err(|e| EncErr::Write(e.to_string()))?;
                 off += n;
+            }
+            if !finalize {
+                return Ok(());
             }
             wr.into_inner().finalize().map_err(|e| EncErr::Finalize(e.to_string()))
         }
